@@ -35,6 +35,7 @@ import (
 	"github.com/projectcalico/calico/libcalico-go/lib/backend/api"
 	"github.com/projectcalico/calico/libcalico-go/lib/backend/model"
 	cnet "github.com/projectcalico/calico/libcalico-go/lib/net"
+	typhacalc "github.com/projectcalico/calico/typha/pkg/calc"
 )
 
 type rng struct{ s uint64 }
@@ -703,7 +704,7 @@ func (w *world) referenced(p int) bool {
 
 var conf = config.New()
 
-func runCase(r *rng, enc *json.Encoder, graph bool, uaStream bool) {
+func runCase(r *rng, enc *json.Encoder, graph bool, uaStream bool, viaTypha bool) {
 	unknownActionStream, unknownActionUsed = uaStream, false
 	const nProf, nPol, nTier = 4, 4, 3
 	epIDs := []int{0, 1, 2, 100, 101}
@@ -711,7 +712,8 @@ func runCase(r *rng, enc *json.Encoder, graph bool, uaStream bool) {
 	rec := &recorder{}
 	sk := &sink{rec: rec}
 	flush := func() {}
-	var vf *calc.ValidationFilter
+	var fvf *calc.ValidationFilter
+	var vf api.SyncerCallbacks
 	if graph {
 		// a fresh config per graph: the graph's config batcher writes into it
 		gconf := config.New()
@@ -722,7 +724,7 @@ func runCase(r *rng, enc *json.Encoder, graph bool, uaStream bool) {
 		sk.next = func(u api.Update) { cg.OnUpdates([]api.Update{u}) }
 		sk.status = cg.OnStatusUpdated
 		flush = func() { cg.Flush(); es.Flush() }
-		vf = calc.NewValidationFilter(sk, gconf)
+		fvf = calc.NewValidationFilter(sk, gconf)
 	} else {
 		arc := calc.NewActiveRulesCalculator()
 		arc.RuleScanner = rec
@@ -730,7 +732,12 @@ func runCase(r *rng, enc *json.Encoder, graph bool, uaStream bool) {
 		arc.OnPolicyCountsChanged = rec.counts
 		sk.next = func(u api.Update) { arc.OnUpdate(u) }
 		sk.status = arc.OnStatusUpdate
-		vf = calc.NewValidationFilter(sk, conf)
+		fvf = calc.NewValidationFilter(sk, conf)
+	}
+	vf = fvf
+	if viaTypha {
+		// deployment with Typha: Typha's own ValidationFilter runs first, Felix's runs again on what Typha forwards
+		vf = typhacalc.NewValidationFilter(fvf)
 	}
 
 	w := &world{profs: map[int]bool{}, pols: map[int]bool{}, eps: map[int]aEndpoint{}, tiers: map[int]bool{}}
@@ -941,6 +948,11 @@ func runCase(r *rng, enc *json.Encoder, graph bool, uaStream bool) {
 	if uaStream {
 		tags["stream:unknown-action"] = true
 	}
+	if viaTypha {
+		tags["pipeline:typha-filter+felix-filter"] = true
+	} else {
+		tags["pipeline:felix-filter"] = true
+	}
 	if graph {
 		tags["mode:whole-graph"] = true
 	} else {
@@ -963,7 +975,7 @@ func runCase(r *rng, enc *json.Encoder, graph bool, uaStream bool) {
 		tl = append(tl, t)
 	}
 	sort.Strings(tl)
-	_ = enc.Encode(line{Coq: coq, NT: sawDummy && (sawReplace || sawInvalidOverValid || sawDeleteWhileRef), Key: fmt.Sprintf("graph=%v;ua=%v;", graph, uaStream) + strings.Join(keyParts, ";"),
+	_ = enc.Encode(line{Coq: coq, NT: sawDummy && (sawReplace || sawInvalidOverValid || sawDeleteWhileRef), Key: fmt.Sprintf("graph=%v;ua=%v;typha=%v;", graph, uaStream, viaTypha) + strings.Join(keyParts, ";"),
 		Sample: map[string]any{"trace": sample}, Tags: tl})
 }
 
@@ -987,6 +999,6 @@ func main() {
 	enc := json.NewEncoder(os.Stdout)
 	enc.SetEscapeHTML(false)
 	for i := 0; i < *n; i++ {
-		runCase(r, enc, *graphEvery > 0 && i%*graphEvery == *graphEvery-1, *uaEvery > 0 && i%*uaEvery == *uaEvery-1)
+		runCase(r, enc, *graphEvery > 0 && i%*graphEvery == *graphEvery-1, *uaEvery > 0 && i%*uaEvery == *uaEvery-1, i%5 == 2)
 	}
 }
